@@ -572,3 +572,33 @@ B('c05b_moved_selection_inverted', ['C05'], 'R05.e',
 B('c05b_moved_class_single_guard_wrong_branch', ['C05'], 'R05.e',
   *(_MOVED + [(_SI, 're:\\Z', "\n\n" + _BUILD_CLASS.replace("    def _one(self, value):\n        if not value and self.optional:\n",
                                                              "    def _one(self, value):\n        if not value or self.optional:\n"))]))
+
+# ---- round g: R05.i -- the mode the pattern is compiled for is the mode declared for *this* binding (application with inherit_slashes,
+# ---- else the route being bound, whose pattern is compiled; never the original unbound route / a chain / a constant) ----------------
+_BR_MODE = "        self.slash_mode = app.slash_mode if inherit_slashes else route.slash_mode\n"
+_BR_COMPILE = ("        self.regex, self.converters = _compile_path_pattern(self.pattern,\n"
+               "                                                            self.slash_mode)\n")
+B('g5_b_mode_from_original_unbound_route', ['C05'], 'R05.i', (R, _BR_MODE, _BR_MODE.replace("else route.slash_mode", "else unbound_route.slash_mode")))
+B('g5_b_mode_from_stored_unbound_route', ['C05'], 'R05.i', (R, _BR_MODE, _BR_MODE.replace("else route.slash_mode", "else self.unbound_route.slash_mode")))
+B('g5_b_mode_through_attribute_chain', ['C05'], 'R05.i',
+  (R, _BR_MODE, "        if inherit_slashes:\n            self.slash_mode = app.slash_mode\n        else:\n"
+                "            self.slash_mode = getattr(route, 'unbound_route', route).slash_mode\n"))
+B('g5_b_mode_source_named_first_wrong_object', ['C05'], 'R05.i',
+  (R, _BR_MODE, "        mode_source = app if inherit_slashes else unbound_route\n        self.slash_mode = mode_source.slash_mode\n"))
+B('g5_b_mode_constant_when_not_inherited', ['C05'], 'R05.i', (R, _BR_MODE, _BR_MODE.replace("else route.slash_mode", "else S_REDIRECT")))
+B('g5_b_mode_compiled_differs_from_stored', ['C05'], 'R05.i',
+  (R, _BR_COMPILE, "        compile_mode = app.slash_mode if inherit_slashes else unbound_route.slash_mode\n"
+                   "        self.regex, self.converters = _compile_path_pattern(self.pattern, compile_mode)\n"))
+B('g5_b_mode_arms_swapped', ['C05'], 'R05.i', (R, _BR_MODE, "        self.slash_mode = route.slash_mode if inherit_slashes else app.slash_mode\n"))
+B('g5_b_mode_ignores_option', ['C05'], 'R05.i', (R, _BR_MODE, "        self.slash_mode = app.slash_mode\n"))
+T('g5_t_mode_arms_written_out_inverted', ['C05'],
+  (R, _BR_MODE, "        if not inherit_slashes:\n            self.slash_mode = route.slash_mode\n        else:\n            self.slash_mode = app.slash_mode\n"))
+T('g5_t_mode_source_named_first', ['C05'],
+  (R, _BR_MODE, "        mode_source = app if inherit_slashes else route\n        self.slash_mode = mode_source.slash_mode\n"))
+T('g5_t_mode_named_then_stored_and_compiled', ['C05'],
+  (R, _BR_MODE, "        slash_mode = app.slash_mode if inherit_slashes else route.slash_mode\n        self.slash_mode = slash_mode\n"),
+  (R, _BR_COMPILE, "        self.regex, self.converters = _compile_path_pattern(self.pattern, slash_mode)\n"))
+T('g5_t_mode_keyword_arguments', ['C05'],
+  (R, _BR_COMPILE, "        self.regex, self.converters = _compile_path_pattern(pattern=self.pattern, mode=self.slash_mode)\n"))
+T('g5_t_mode_default_then_override', ['C05'],
+  (R, _BR_MODE, "        self.slash_mode = route.slash_mode\n        if inherit_slashes:\n            self.slash_mode = app.slash_mode\n"))
